@@ -380,16 +380,19 @@ class TOFUDatabase:
         if not isinstance(data["hosts"], dict):
             raise ValueError("Invalid TOML: 'hosts' must be a table")
 
-        # Clear database if not merging
-        if not merge:
-            self.clear()
-
         added_count = 0
         updated_count = 0
         skipped_count = 0
 
+        # The whole import is one transaction on one connection: it is committed
+        # only after every entry was validated and applied, so a failing import
+        # leaves the store exactly as it was.
         with self._connection() as conn:
             cursor = conn.cursor()
+
+            # Replace mode: empty the table inside this transaction
+            if not merge:
+                cursor.execute("DELETE FROM known_hosts")
 
             for key, host_data in data["hosts"].items():
                 # Validate required fields
@@ -424,8 +427,15 @@ class TOFUDatabase:
                         f"has invalid fingerprint format: {fingerprint}"
                     )
 
-                # Check if host already exists
-                existing = self.get_host_info(hostname, port)
+                # Check if host already exists (on this connection, so rows
+                # written earlier in this import are seen as well)
+                cursor.execute(
+                    "SELECT fingerprint FROM known_hosts "
+                    "WHERE hostname = ? AND port = ?",
+                    (hostname, port),
+                )
+                row = cursor.fetchone()
+                existing = dict(row) if row is not None else None
 
                 if existing is None:
                     # New host - add it
